@@ -287,6 +287,30 @@ func registryConfigX(c *RunCtx, t *Tape, allowMissing bool) (string, func()) {
 		c.Fire("cfg.user-checksum-services")
 		return "frame checksum services replaced by user implementations that read (consume) the buffer they are given", restoreBuiltins
 	}
+	if k == 8 && t.Intn(2) == 0 {
+		// the service was absent for a while and is back: unregistered, the process went on (a
+		// look-up and a frame encode found nothing), then the application registered it again.
+		// From here on the registry is complete, so every oracle applies - unless something
+		// remembered the miss
+		i := t.Intn(3)
+		name := []string{"SSE_BIN", "SZSE_BIN", "CRC32"}[i]
+		frame := []string{"sse.SseBinary", "szse.SzseBinary", "sample.RootPacket"}[i]
+		if t.Intn(3) == 0 {
+			codec.Clear()
+		} else {
+			codec.Remove(name)
+		}
+		codec.Get(name)
+		g := &Gen{t: t, cfg: GenCfg{ListCap: 1, StrCap: 4}}
+		var scratch bytes.Buffer
+		tryEncode(g.Value(frame), &scratch)
+		for _, svc := range []any{&codec.Crc16ChecksumService{}, &codec.Crc32ChecksumService{}, &codec.SseBinChecksumService{}, &codec.SzseBinChecksumService{}} {
+			codec.Registry(svc) // the ones still present refuse the duplicate
+		}
+		c.Fire("hist.service-absent-then-registered-again")
+		c.Logf("PROCESS HISTORY: checksum service %s was unregistered, looked up and a %s encoded meanwhile, then registered again", name, frame)
+		return "", func() {}
+	}
 	if !allowMissing {
 		return "", func() {}
 	}
@@ -601,6 +625,8 @@ type parOp struct {
 	fdesc  string
 	left   int
 	prior  []byte // unread content of the task's buffer before its Encode
+	reuse  bool   // the receiver decodes: the complete message, the faulted bytes, the complete message again
+	final  []byte // input of the last decode (whose result is compared)
 }
 
 type callLite struct {
@@ -713,6 +739,11 @@ func runC20(c *RunCtx) {
 					for k := 0; k < 12; k++ {
 						op.ftape = append(op.ftape, t.Bits())
 					}
+					// a receive loop's receiver: it decoded the complete message, then the faulted
+					// bytes (which usually fails), then the complete message again - what a retry after
+					// a short read or a resynchronisation looks like.  The same sequence is repeated
+					// alone afterwards, so that only interference between tasks can make a difference
+					op.reuse = t.Intn(2) == 0
 				}
 			}
 			c.Count("type."+name, 1)
@@ -761,14 +792,24 @@ func runC20(c *RunCtx) {
 						}
 					}
 				}
-				src := cloneBytes(op.in)
-				rb := bytes.NewBuffer(src)
 				rd := asCodec(op.recv)
-				op.decRes = liteCall(func() error { return rd.Decode(rb) })
-				op.left = rb.Len()
-				for i := range src {
-					src[i] ^= 0x5C // the task recycles its receive buffer at once
+				decodeInto := func(in []byte) (callLite, int) {
+					src := cloneBytes(in)
+					rb := bytes.NewBuffer(src)
+					res := liteCall(func() error { return rd.Decode(rb) })
+					left := rb.Len()
+					for i := range src {
+						src[i] ^= 0x5C // the task recycles its receive buffer at once
+					}
+					return res, left
 				}
+				op.final = op.in
+				if op.reuse {
+					decodeInto(op.out)
+					decodeInto(op.in)
+					op.final = op.out
+				}
+				op.decRes, op.left = decodeInto(op.final)
 			}
 		})
 	}
@@ -852,7 +893,12 @@ func runC20(c *RunCtx) {
 				c.Probe("parallel-decode-of-faulted-bytes")
 			}
 			ref := newValue(op.name)
-			arb := bytes.NewBuffer(cloneBytes(op.in))
+			if op.reuse {
+				c.Probe("parallel-decode-retry-into-the-same-receiver")
+				tryDecode(ref, bytes.NewBuffer(cloneBytes(op.out)))
+				tryDecode(ref, bytes.NewBuffer(cloneBytes(op.in)))
+			}
+			arb := bytes.NewBuffer(cloneBytes(op.final))
 			dr := tryDecode(ref, arb)
 			aFailed = dr.Err != nil || dr.Panic != nil
 			pFailed = op.decRes.Err != nil || op.decRes.Panic != nil
